@@ -67,7 +67,7 @@ func (t template) wanted(n int, tier vp.Tier, sanitizer bool) bool {
 	}
 	switch {
 	case sanitizer:
-		return n == 10 || n == 256 || n == 257 || n == 1<<15+1 && (t.name == "statements" || t.name == "jump-while")
+		return n == 10 || n == 256 || n == 257
 	case n <= 300:
 		return true
 	case n <= 1<<15+1:
@@ -456,7 +456,7 @@ func runLimitTemplates(x *exec) {
 	if c.Tier == vp.Quick {
 		nb = 4
 		if x.variant != "plain" {
-			nb = 1
+			nb = 0
 		}
 	} else if x.variant != "plain" {
 		nb = 4
